@@ -24,7 +24,7 @@ def cells(a):
     """flat list of the cells of an ndarray / scalar (z3 terms or python values)"""
     if hasattr(a, "_cells"):
         return list(a._cells())
-    if hasattr(a, "val") and hasattr(a, "weak"):      # shim scalar
+    if hasattr(a, "val") and hasattr(a, "weak"):      # shim scalar / symbolic python scalar
         return [a.val]
     a = np.asarray(a)
     if a.dtype.kind == "f":      # floats are observed as bit patterns (the symbolic side carries bit patterns)
@@ -52,7 +52,7 @@ def pyval(v):
     if isinstance(v, (bool, int)) or v is None:
         return v
     if SYMBOLIC and hasattr(v, "sort") and str(v.sort()) == "Bool":
-        return np.bool_(v, weak=True)
+        return np.SymPy(v)
     return pyint(v)
 
 
@@ -71,7 +71,7 @@ def pyint(v):
     if v is None:
         return None
     if SYMBOLIC and not isinstance(v, (int, bool)):
-        return np.int64(v, weak=True)
+        return v if isinstance(v, np.SymPy) else np.SymPy(v)
     return int(v)
 
 
@@ -93,6 +93,8 @@ def obs_array(a):
 
 
 def obs_scalar(v):
+    if SYMBOLIC and isinstance(v, np.SymPy):
+        return {"k": "scalar", "val": v.val, "dtype": "py"}
     if hasattr(v, "dtype"):
         c = cells(v)
         if getattr(v, "weak", False):
